@@ -21,8 +21,8 @@ Oracle (each clause quotes the statement):
     arrive late": at every quiescent point a generic walk over every container reachable from the attributes of the server and of the
     poller (dict keys/values, lists, tuples, sets, deques, nested) looks for the socket OBJECT; the attribute path is part of the key
     (C12/residue/server._buffers/late-write, C12/residue/EPoll._map/after-disconnect, ...).  No table is named in the check;
-  * "whichever poller is used": when every action of the history was followed by full quiescence and no content-changing fault fired,
-    the per-connection (connects, bytes read, disconnects) after every step must be identical under the three pollers
+  * "whichever poller is used": when every action of the history was followed by full quiescence and no fault fired in any of the
+    three executions (fault placement is drawn per call, so it differs between them and legitimately changes timing), the per-connection (connects, bytes read, disconnects) after every step must be identical under the three pollers
     (C12/pollers-disagree/...);
   * "client components likewise report one disconnected per connected": `connected`/`disconnected` of a TCPClient must alternate and be
     equal in number after the final phase (C12/client/...).
@@ -64,16 +64,16 @@ STUBBED = ['socket class -> SimSocket (AF_UNIX behind simulated addresses, fault
 ASSUMPTIONS = ['`error` events (and `exception` events of a rejected late write) are not part of the judged stream: only connect/read/disconnect are',
                'a prefix of the sent bytes is accepted whenever the server closed first, a fatal fault hit the socket, the peer aborted, or the peer closed while '
                'server data for it was still unsent (the failing send legitimately ends the connection before the last bytes are read)',
-               'pollers are compared only on histories where every action ran to quiescence and no recv_reset/fatal_send_error fired (otherwise timing and the '
-               'independently drawn faults legitimately change which prefix is read)',
+               'pollers are compared only on histories where every action ran to quiescence and no fault fired in any of the three executions (otherwise timing and the '
+               'independently drawn faults legitimately change what is read / when a close deferred by unsent data completes)',
                'client clause: only the pairing of connected/disconnected is judged']
 PROBES = ['late-write', 'late-close', 'abort', 'half-close', 'stalled-send-buffer-full', 'close-deferred-by-buffer', 'peer-close-while-writing', 'unix-server',
           'client-mode', 'client-reconnect', 'pollers-compared', 'echo-write', 'multi-conn', 'unsettled-action', 'cfg:Select', 'cfg:Poll', 'cfg:EPoll',
           'fault:short_read', 'fault:spurious_eagain_read', 'fault:recv_reset', 'fault:short_write', 'fault:transient_send_error', 'fault:fatal_send_error',
           'fault:accept_error', 'fault:poll_eintr', 'fault:connect_delay']
 TIERS = {
-    'quick': dict(runs=9000, wall=35, chunk=100, cfg=dict(max_conn=4, max_actions=10, big=20000)),
-    'thorough': dict(runs=250000, wall=600, chunk=200, cfg=dict(max_conn=5, max_actions=22, big=60000)),
+    'quick': dict(runs=12000, wall=35, chunk=50, cfg=dict(max_conn=4, max_actions=10, big=20000)),
+    'thorough': dict(runs=300000, wall=600, chunk=200, cfg=dict(max_conn=5, max_actions=22, big=60000)),
 }
 
 POLLERS = [Select, Poll, EPoll]
@@ -95,6 +95,7 @@ class Policy(TapePolicy):
     def __init__(self, ctx, kinds, rate):
         super().__init__(ctx, kinds, rate)
         self.fatal = set()
+        self.polls = 0
 
     def on_recv(self, sock, n):
         act = super().on_recv(sock, n)
@@ -108,10 +109,28 @@ class Policy(TapePolicy):
             self.fatal.add(sock.sim_id)
         return act
 
+    def on_poll(self, kind):
+        # only the first poll call of a loop iteration (the wait in _generate_events) can be interrupted; Select's zero-timeout probes of single
+        # descriptors (_preenDescriptors) come later in the same iteration, never sleep and so never see EINTR
+        self.polls += 1
+        return self.polls == 1 and super().on_poll(kind)
+
     def on_connect(self, sock, addr):
         # a non-blocking TCP connect() always answers EINPROGRESS first; AF_UNIX would answer 0, which TCPClient's reconnect path
         # (connect_ex on a fresh socket) does not expect.  The fault `connect_delay` adds 1-4 failing getpeername() polls on top.
         return super().on_connect(sock, addr) or ('delay', 0)
+
+
+_KNOWN = []
+
+
+def known_keys():
+    """Listed known findings (known_findings.json + findings/C12.pending.json); used ONLY to choose which of several simultaneous
+    residue violations is reported first, so that a listed one does not hide an unlisted one."""
+    if not _KNOWN:
+        from simcore import runner
+        _KNOWN.append(frozenset(runner.known_keys(ID)))
+    return _KNOWN[0]
 
 
 def holders(root, label, sock):
@@ -167,6 +186,7 @@ class Sub:
         self.poller = P().register(self.m)
         self.t0 = W.now
         self.exceptions = 0
+        self.faults0 = self.nfaults()
         self.progress = 0      # observable progress counters (see _settle)
         self.nev = 0
         self.on_recv = None
@@ -174,15 +194,28 @@ class Sub:
         ctx.stat('cfg:' + self.name)
         ctx.log('sub', self.name)
 
+    def nfaults(self):
+        return sum(v for k, v in self.ctx.stats.items() if k.startswith('fault:'))
+
+    def faulted(self):
+        return self.nfaults() != self.faults0
+
     def tr(self, fmt, *args):
         if self.ctx.keep_trace:
             self.lines.append('[%s] %s' % (self.name, fmt % args if args else fmt))
 
     def fail(self, key, detail):
+        if key in self.ctx.avoid:
+            # the generator stayed away from the trigger of this known finding in this run, so this is something else with the same symptom
+            key += '/although-trigger-avoided'
         self.failed = True
         self.tr('VIOLATION %s: %s', key, detail)
         self.ctx.violation(key, '%s: %s' % (self.name, detail))
         raise Stop()
+
+    def step(self):
+        self.pol.polls = 0
+        return step(self.m)
 
     def _oplog(self, kind, sock, data):
         if kind == 'close' or data:
@@ -197,7 +230,7 @@ class Sub:
         quiet = n = 0
         while quiet < quiet_rounds:
             sig = (self.progress, self.nev, len(NET.socks))
-            step(self.m)
+            self.step()
             did = pump()
             quiet = quiet + 1 if (not did and sig == (self.progress, self.nev, len(NET.socks)) and not self.m._tasks) else 0
             n += 1
@@ -214,7 +247,7 @@ class Sub:
 
     def partial(self, pump, k):
         for _ in range(k):
-            step(self.m)
+            self.step()
             pump()
 
 
@@ -249,8 +282,8 @@ def gen_server_plan(ch, cfg):
 
 
 def run_server(ctx, plan, P, skip_late):
-    ch = ctx.ch
-    S = Sub(ctx, P, plan['kinds'], plan['rate'])
+    kinds = [k for k in plan['kinds'] if not (k == 'fatal_send_error' and 'send-fails' in skip_late) and not (k == 'recv_reset' and 'recv-fails-deferred' in skip_late)]
+    S = Sub(ctx, P, kinds, plan['rate'])
     m, poller, tr, fail = S.m, S.poller, S.tr, S.fail
     if plan['unix']:
         srv = UNIXServer(UPATH, bufsize=plan['bufsize']).register(m)
@@ -279,6 +312,9 @@ def run_server(ctx, plan, P, skip_late):
                                           or rec['sid'] in S.pol.fatal):
             tr('%s: write that would (or could) arrive after the closure skipped (known finding avoided)', origin)
             return
+        if 'send-fails' in skip_late and c is not None and c['pstate'] == 'closed':
+            tr('%s: write to a connection whose peer is gone skipped (known finding avoided)', origin)
+            return
         if rec['ndisc']:
             ctx.stat('late-write')
             tr('%s: LATE write of %d bytes to %s (disconnect already observed)', origin, len(data), cname(rec))
@@ -293,8 +329,7 @@ def run_server(ctx, plan, P, skip_late):
     def arrival(sock, what):
         rec = recs.get(getattr(sock, 'sim_id', -1))
         if rec is not None and sock.sim_closed_at is not None:
-            if rec['late'] is None:
-                rec['pre_late'] = set(residue(rec))
+            rec['arrivals'].append((what, residue(rec)))      # what held the socket just before this late event was handled
             rec['late'] = what
 
     def residue(rec):
@@ -311,7 +346,7 @@ def run_server(ctx, plan, P, skip_late):
             tr('    observer: connect #%d from %s:%s%s', sid, host, port, ' = conn%d' % c['idx'] if c else '')
             if sid in recs:
                 fail('C12/stream/connect-twice', 'second connect event for socket #%d' % sid)
-            rec = recs[sid] = dict(sid=sid, sock=sock, conn=c, nconn=1, reads=bytearray(), ndisc=0, late=None, pre_late=(), issued=0, risky=False, close_issued=False, deferred=False)
+            rec = recs[sid] = dict(sid=sid, sock=sock, conn=c, nconn=1, reads=bytearray(), ndisc=0, late=None, arrivals=[], issued=0, risky=False, close_issued=False, deferred=False)
             if c is not None:
                 c['rec'] = rec
             if plan['sndbuf']:
@@ -375,8 +410,7 @@ def run_server(ctx, plan, P, skip_late):
 
         def error(self, *args):
             ctx.log('error', getattr(args[0], 'sim_id', -1) if args else -1)
-            S.nev += 1
-            tr('    observer: error %r', args[1:] if len(args) > 1 else args)
+            tr('    observer: error %r', args[1:] if len(args) > 1 else args)       # (not counted as progress: a dead socket can produce these for ever)
 
         @handler('exception', channel='*')
         def _on_exception(self, etype, value, *a, **k):
@@ -412,11 +446,18 @@ def run_server(ctx, plan, P, skip_late):
                 # "After the disconnect neither the server nor the poller retains any state for that socket, even if writes or closes ... arrive late"
                 hits = residue(rec)
                 if hits:
-                    old = [h for h in hits if rec['late'] is None or h in rec['pre_late']]     # held before any late write/close arrived
-                    fail('C12/residue/%s/%s' % ((old or hits)[0], 'after-disconnect' if old else rec['late']),
-                         '%s (socket #%d): disconnect was observed%s, yet at quiescence the socket object is still held by %s%s'
-                         % (cname(rec), rec['sid'], {None: '', 'late-write': ' and a late write arrived', 'late-close': ' and a late close arrived'}[rec['late']],
-                            ', '.join(hits), ' (%s already before the late event arrived)' % ', '.join(old) if old and rec['late'] else ''))
+                    # attribute every holder to the stage after which it first held the socket: the disconnect itself, or the k-th late event
+                    cands, seen, when = [], set(), 'after-disconnect'
+                    for what, held in rec['arrivals'] + [(None, hits)]:
+                        cands += [(p, when) for p in held if p not in seen and p in hits]       # (only what is still held now counts)
+                        seen.update(held)
+                        when = what
+                    # several holders = several violations; only one can be reported: prefer one that is not a listed known finding
+                    keys = ['C12/residue/%s/%s' % c for c in cands]
+                    key = next((k for k in keys if k not in known_keys()), keys[0])
+                    fail(key, '%s (socket #%d): disconnect was observed%s, yet at quiescence the socket object is still held by: %s'
+                         % (cname(rec), rec['sid'], ' and %d late write/close event(s) arrived' % len(rec['arrivals']) if rec['arrivals'] else '',
+                            ', '.join('%s (%s)' % c for c in cands)))
         snaps.append(tuple((c['rec']['nconn'], len(c['rec']['reads']), crc(c['rec']['reads']), c['rec']['ndisc']) if c['rec'] else (0, 0, 0, 0) for c in conns))
 
     def open_conn(c):
@@ -434,6 +475,13 @@ def run_server(ctx, plan, P, skip_late):
 
     def end_peer(c, drain):
         p, rec = c['peer'], c['rec']
+        if 'recv-fails-deferred' in skip_late:
+            drain = True
+        if 'send-fails' in skip_late:
+            # known finding avoided: the peer takes everything the server has for it before it goes away, so that no send fails
+            c['reading'] = True
+            S.quiesce(pump)
+            drain = True
         if drain:
             p.recv()
         n = unread(p)
@@ -466,7 +514,7 @@ def run_server(ctx, plan, P, skip_late):
                         c['peer'].send(data[last:cut])
                         last = cut
                         if between and cut < n:
-                            step(m)
+                            S.step()
         elif kind in ('srv_write', 'srv_big'):
             if c['rec'] is not None:
                 server_write(c['rec'], payload(i + 100, c['wrote'], arg), 'server')
@@ -555,7 +603,7 @@ def run_server(ctx, plan, P, skip_late):
         NET.oplog = None
     ctx.sim_time += W.now - S.t0
     full = [r for r in recs.values() if r['ndisc'] == 1 and r['reads']]
-    return dict(S=S, snaps=snaps, full=len(full), fatal=bool(S.pol.fatal),
+    return dict(S=S, snaps=snaps, full=len(full), fatal=S.faulted(),
                 summary='%d connection(s), %d with connect+read+disconnect, %d exception event(s): ok' % (len(recs), len(full), S.exceptions))
 
 
@@ -644,7 +692,6 @@ def run_client(ctx, plan, P, skip_uwrite):
 
         def error(self, *a):
             ctx.log('cerror')
-            S.nev += 1
             tr('    observer: error %r', a)
 
         @handler('exception', channel='*')
@@ -755,7 +802,7 @@ def run_client(ctx, plan, P, skip_uwrite):
     except Stop:
         pass
     ctx.sim_time += W.now - S.t0
-    return dict(S=S, snaps=snaps, full=st['ndisc'] if st['nread'] else 0, fatal=bool(S.pol.fatal),
+    return dict(S=S, snaps=snaps, full=st['ndisc'] if st['nread'] else 0, fatal=S.faulted() or st['uwrite'],   # (a known trigger: not compared)
                 summary='%d connected, %d disconnected, %d bytes read, %d exception event(s): ok' % (st['nconn'], st['ndisc'], st['nread'], S.exceptions))
 
 
@@ -784,8 +831,12 @@ def _run(ctx):
         if len(parts) == 4 and parts[1] == 'residue':
             if parts[3] in ('late-write', 'late-close'):
                 skip_late.add(parts[3])
-            elif parts[2].split('.')[0] in ('Select', 'Poll', 'EPoll'):
-                skip_pollers.add(parts[2].split('.')[0])      # every disconnect under that poller triggers it
+            elif parts[2] == 'server._buffers':
+                skip_late.add('send-fails')             # trigger: a send that fails fatally (fault, or peer gone while data is unsent)
+            elif parts[2] == 'server._closeq':
+                skip_late.add('recv-fails-deferred')    # trigger: recv error / reset while a close is deferred by unsent data
+            elif parts[2] == 'EPoll._map':
+                skip_pollers.add('EPoll')               # trigger: any disconnect under EPoll
     results = []
     for pi in plan['order']:
         P = POLLERS[pi]
